@@ -476,6 +476,9 @@ class Interp:
             elif k == 'call':
                 args_v = [self.operand(frame, a) for a in t['args']]
                 self.cur = (body, t)
+                self.cur_func = None
+                if 'callee' not in t and t.get('func') and t['func'].get('k') in ('copy', 'move'):
+                    self.cur_func = self.operand(frame, t['func'])
                 r = self.call(body, t, args_v, depth)
                 if t['target'] is None:
                     raise Unmodelled('diverging call %s' % cname(t))
@@ -510,11 +513,13 @@ class Interp:
     def call(self, body, t, args, depth):
         name = cname(t)
         if name is None:
-            # indirect call through a local (fn pointer / closure)
-            f = t.get('func')
-            if f and f.get('k') in ('copy', 'move'):
-                raise Unmodelled('indirect call')
-            raise Unmodelled('call without callee')
+            # indirect call through a local holding a function pointer / closure
+            fv = getattr(self, 'cur_func', None)
+            if fv is not None:
+                fv = self.deref_all(fv)
+                if fv is not None and fv[0] in ('fnptr', 'closure'):
+                    return self.call_closure(fv, args, depth)
+            raise Unmodelled('indirect call')
         if self.opaque_call is not None:
             r = self.opaque_call(self, name, args, t, body)
             if r is not None:
